@@ -80,6 +80,41 @@ fn keys<C: Cs>(ctx: &Ctx, idx: u64, own_modulus_key: bool) {
     if serde_json::from_str::<Bases>(&bj).map(|b| b.0).ok().as_ref() != Some(&bases.0) {
         ctx.violation("C18:roundtrip/bases/json", json!({"case":case}));
     }
+    // argument shapes of the generators: absent count, zero, one, several - sizes as asked, JSON round trip
+    for (nm, na, want) in [("None", None, 1usize), ("Some(0)", Some(0usize), 0), ("Some(1)", Some(1), 1), ("Some(7)", Some(7), 7)] {
+        let c2 = format!("{}/commitment-key/n_attributes={}", case, nm);
+        ctx.distinct(&format!("{}/commitment-key/n_attributes={}", C::NAME, nm));
+        let Some(ck) = ctx.call("CommitmentPublicKey::generate(issuer N)", &c2, None, || Ok::<_, ()>(CL03CommitmentPublicKey::generate::<C>(Some(pk.N.clone()), na))).value else {
+            ctx.violation("C18:commitment-key-generation-panicked", json!({"case":c2}));
+            continue;
+        };
+        if ck.g_bases.len() != want || ck.N != pk.N {
+            ctx.violation("C18:wrong-number-of-bases", json!({"case":c2,"asked":nm,"g":ck.g_bases.len()}));
+        }
+        let js = serde_json::to_string(&ck).unwrap();
+        if serde_json::from_str::<CL03CommitmentPublicKey>(&js).ok().as_ref() != Some(&ck) {
+            ctx.violation("C18:roundtrip/commitment-key/json", json!({"case":c2,"json":js.chars().take(200).collect::<String>()}));
+        }
+        for g in ck.g_bases.iter().chain([&ck.h]) {
+            if *g <= 1 || *g >= pk.N || Integer::from(g.gcd_ref(&pk.N)) != 1 {
+                ctx.violation("C18:commitment-key-base-ill-formed", json!({"case":c2}));
+            }
+        }
+    }
+    for nb in [0usize, 1, 9] {
+        let c2 = format!("{}/bases/n={}", case, nb);
+        let Some(b) = ctx.call("Bases::generate", &c2, None, || Ok::<_, ()>(Bases::generate(&pk, nb))).value else {
+            ctx.violation("C18:bases-generation-panicked", json!({"case":c2}));
+            continue;
+        };
+        if b.0.len() != nb {
+            ctx.violation("C18:wrong-number-of-bases", json!({"case":c2,"asked":nb,"bases":b.0.len()}));
+        }
+        let bj = serde_json::to_string(&b).unwrap();
+        if serde_json::from_str::<Bases>(&bj).map(|x| x.0).ok().as_ref() != Some(&b.0) {
+            ctx.violation("C18:roundtrip/bases/json", json!({"case":c2}));
+        }
+    }
     // signatures survive their encodings
     for k in 0..3 {
         let msgs = attributes::<C>(&mut r, n_attr, k);
